@@ -1,8 +1,391 @@
 import NxModel.Nex.Streams
+import NxModel.Nex.Common
 import NxProofs.Bytes
 import NxProofs.Bits
-/-! round-trip lemmas for the NEX stream primitives -/
+import NxProofs.NexErrors
+/-! round-trip lemmas for the NEX stream primitives: `r (w x ++ rest) = ok (x, rest)` -/
 namespace Nx.Nex
 open Nx
+
+theorem bind_ok {α β : Type} {x : Except Err α} {f : α → Except Err β} {b : β}
+    (h : (x >>= f) = .ok b) : ∃ a, x = .ok a ∧ f a = .ok b := by
+  cases x with
+  | error e => simp [bind, Except.bind] at h
+  | ok a => exact ⟨a, rfl, h⟩
+
+/-! ## integers -/
+
+theorem rdU8_wU8 {n : Nat} {b : Bytes} (h : wU8 n = .ok b) (rest : Bytes) : rdU8 (b ++ rest) = .ok (n, rest) := by
+  unfold wU8 at h; split at h
+  · cases h; exact rdU8_u8 _ _ (by assumption)
+  · cases h
+
+theorem rdU16_wU16 {n : Nat} {b : Bytes} (h : wU16 n = .ok b) (rest : Bytes) : rdU16 (b ++ rest) = .ok (n, rest) := by
+  unfold wU16 at h; split at h
+  · cases h; exact rdU16_u16le _ _ (by assumption)
+  · cases h
+
+theorem rdU32_wU32 {n : Nat} {b : Bytes} (h : wU32 n = .ok b) (rest : Bytes) : rdU32 (b ++ rest) = .ok (n, rest) := by
+  unfold wU32 at h; split at h
+  · cases h; exact rdU32_u32le _ _ (by assumption)
+  · cases h
+
+theorem rdU64_wU64 {n : Nat} {b : Bytes} (h : wU64 n = .ok b) (rest : Bytes) : rdU64 (b ++ rest) = .ok (n, rest) := by
+  unfold wU64 at h; split at h
+  · cases h; exact rdU64_u64le _ _ (by assumption)
+  · cases h
+
+theorem wU8_ok_iff (n : Nat) : (∃ b, wU8 n = .ok b) ↔ n < 256 := by
+  unfold wU8; split <;> simp [*]
+theorem wU16_ok_iff (n : Nat) : (∃ b, wU16 n = .ok b) ↔ n < 65536 := by
+  unfold wU16; split <;> simp [*]
+theorem wU32_ok_iff (n : Nat) : (∃ b, wU32 n = .ok b) ↔ n < 4294967296 := by
+  unfold wU32; split <;> simp [*]
+theorem wU64_ok_iff (n : Nat) : (∃ b, wU64 n = .ok b) ↔ n < 18446744073709551616 := by
+  unfold wU64; split <;> simp [*]
+
+theorem rS8_wS8 {v : Int} {b : Bytes} (h : wS8 v = .ok b) (rest : Bytes) : rS8 (b ++ rest) = .ok (v, rest) := by
+  unfold wS8 at h; split at h
+  · rename_i hin
+    cases h
+    simp only [inS, Bool.and_eq_true, decide_eq_true_eq] at hin
+    have hlt : toTwos 8 v < 256 := by unfold toTwos; split <;> omega
+    simp only [rS8, bind, Except.bind, rdU8_u8 _ _ hlt, pure, Except.pure, Except.ok.injEq, Prod.mk.injEq, and_true]
+    unfold ofTwos toTwos; split <;> split <;> omega
+  · cases h
+
+theorem rS16_wS16 {v : Int} {b : Bytes} (h : wS16 v = .ok b) (rest : Bytes) : rS16 (b ++ rest) = .ok (v, rest) := by
+  unfold wS16 at h; split at h
+  · rename_i hin
+    cases h
+    simp only [inS, Bool.and_eq_true, decide_eq_true_eq] at hin
+    have hlt : toTwos 16 v < 65536 := by unfold toTwos; split <;> omega
+    simp only [rS16, bind, Except.bind, rdU16_u16le _ _ hlt, pure, Except.pure, Except.ok.injEq, Prod.mk.injEq, and_true]
+    unfold ofTwos toTwos; split <;> split <;> omega
+  · cases h
+
+theorem rS32_wS32 {v : Int} {b : Bytes} (h : wS32 v = .ok b) (rest : Bytes) : rS32 (b ++ rest) = .ok (v, rest) := by
+  unfold wS32 at h; split at h
+  · rename_i hin
+    cases h
+    simp only [inS, Bool.and_eq_true, decide_eq_true_eq] at hin
+    have hlt : toTwos 32 v < 4294967296 := by unfold toTwos; split <;> omega
+    simp only [rS32, bind, Except.bind, rdU32_u32le _ _ hlt, pure, Except.pure, Except.ok.injEq, Prod.mk.injEq, and_true]
+    unfold ofTwos toTwos; split <;> split <;> omega
+  · cases h
+
+theorem rS64_wS64 {v : Int} {b : Bytes} (h : wS64 v = .ok b) (rest : Bytes) : rS64 (b ++ rest) = .ok (v, rest) := by
+  unfold wS64 at h; split at h
+  · rename_i hin
+    cases h
+    simp only [inS, Bool.and_eq_true, decide_eq_true_eq] at hin
+    have hlt : toTwos 64 v < 18446744073709551616 := by unfold toTwos; split <;> omega
+    simp only [rS64, bind, Except.bind, rdU64_u64le _ _ hlt, pure, Except.pure, Except.ok.injEq, Prod.mk.injEq, and_true]
+    unfold ofTwos toTwos; split <;> split <;> omega
+  · cases h
+
+theorem wS64_ok_iff (v : Int) : (∃ b, wS64 v = .ok b) ↔ (-9223372036854775808 ≤ v ∧ v < 9223372036854775808) := by
+  unfold wS64 inS
+  by_cases h : (-9223372036854775808 ≤ v ∧ v < 9223372036854775808)
+  · have : (decide (-((2 ^ (64 - 1) : Nat) : Int) ≤ v) && decide (v < ((2 ^ (64 - 1) : Nat) : Int))) = true := by
+      simp; omega
+    simp [h]
+  · have : (decide (-((2 ^ (64 - 1) : Nat) : Int) ≤ v) && decide (v < ((2 ^ (64 - 1) : Nat) : Int))) = false := by
+      simp; omega
+    simp [h]
+
+theorem rBool_wBool {v : Bool} {b : Bytes} (h : wBool v = .ok b) (rest : Bytes) : rBool (b ++ rest) = .ok (v, rest) := by
+  unfold wBool at h; cases h
+  cases v <;> simp [rBool, rdU8, u8, bind, Except.bind, pure, Except.pure, b8]
+
+theorem rDouble_wDouble {v : Nat} {b : Bytes} (h : wDouble v = .ok b) (rest : Bytes) : rDouble (b ++ rest) = .ok (v, rest) :=
+  rdU64_wU64 h rest
+
+theorem rResult_wResult {v : Nat} {b : Bytes} (h : wResult v = .ok b) (rest : Bytes) : rResult (b ++ rest) = .ok (v, rest) :=
+  rdU32_wU32 h rest
+
+theorem rDateTime_wDateTime {v : Nat} {b : Bytes} (h : wDateTime v = .ok b) (rest : Bytes) : rDateTime (b ++ rest) = .ok (v, rest) :=
+  rdU64_wU64 h rest
+
+theorem rPid_wPid (pidSize : Nat) {v : Nat} {b : Bytes} (h : wPid pidSize v = .ok b) (rest : Bytes) :
+    rPid pidSize (b ++ rest) = .ok (v, rest) := by
+  unfold wPid at h; unfold rPid
+  split at h
+  · rename_i h8; rw [if_pos h8]; exact rdU64_wU64 h rest
+  · rename_i h8; rw [if_neg h8]; exact rdU32_wU32 h rest
+
+theorem wPid_ok_iff (pidSize v : Nat) :
+    (∃ b, wPid pidSize v = .ok b) ↔ v < (if pidSize = 8 then 18446744073709551616 else 4294967296) := by
+  unfold wPid; split
+  · exact wU64_ok_iff v
+  · exact wU32_ok_iff v
+
+/-! ## rd -/
+
+theorem rd_append (d rest : Bytes) : rd d.length (d ++ rest) = .ok (d, rest) := by
+  simp [rd]
+
+/-! ## strings -/
+
+theorem utf8Dec_utf8Enc (l : List Char) : utf8Dec (utf8Enc l) = some l := by
+  have := @List.utf8Decode?_utf8Encode l
+  unfold utf8Dec utf8Enc
+  unfold List.utf8Encode at this
+  rw [this]; simp
+
+theorem utf8Enc_length_pos (l : List Char) (h : l ≠ []) : 0 < (utf8Enc l).length := by
+  cases l with
+  | nil => exact absurd rfl h
+  | cons c r =>
+    simp only [utf8Enc, List.flatMap_cons, List.length_append, String.length_utf8EncodeChar]
+    have := c.utf8Size_pos
+    omega
+
+theorem rString_wString {s : Option String} {b : Bytes} (h : wString s = .ok b) (rest : Bytes) :
+    rString (b ++ rest) = .ok (s, rest) := by
+  cases s with
+  | none =>
+    have := rdU16_wU16 h rest
+    simp [rString, this, bind, Except.bind, pure, Except.pure]
+  | some s =>
+    simp only [wString] at h
+    obtain ⟨l, hl, h2⟩ := bind_ok h
+    simp only [pure, Except.pure, Except.ok.injEq] at h2
+    subst h2
+    have hpos : 0 < (utf8Enc (s.toList ++ ['\x00'])).length := utf8Enc_length_pos _ (by simp)
+    have hne : ¬ (utf8Enc (s.toList ++ ['\x00'])).length = 0 := by omega
+    simp only [rString, List.append_assoc, rdU16_wU16 hl, bind, Except.bind, hne, if_false, rd_append,
+      utf8Dec_utf8Enc, pure, Except.pure, List.dropLast_concat, String.ofList_toList]
+
+/-- the exact length condition: the UTF-8 bytes of the string plus the terminator fit a u16 -/
+theorem wString_ok_iff (s : String) : (∃ b, wString (some s) = .ok b) ↔ (utf8Enc s.toList).length ≤ 65534 := by
+  have hlen : (utf8Enc (s.toList ++ ['\x00'])).length = (utf8Enc s.toList).length + 1 := by
+    simp [utf8Enc, String.utf8EncodeChar]
+  simp only [wString]
+  constructor
+  · rintro ⟨b, h⟩
+    obtain ⟨l, hl, _⟩ := bind_ok h
+    have := (wU16_ok_iff _).mp ⟨l, hl⟩
+    omega
+  · intro h
+    obtain ⟨l, hl⟩ := (wU16_ok_iff (utf8Enc (s.toList ++ ['\x00'])).length).mpr (by omega)
+    exact ⟨l ++ utf8Enc (s.toList ++ ['\x00']), by simp [hl, bind, Except.bind, pure, Except.pure]⟩
+
+/-! ## buffers -/
+
+theorem rBuffer_wBuffer {d b : Bytes} (h : wBuffer d = .ok b) (rest : Bytes) : rBuffer (b ++ rest) = .ok (d, rest) := by
+  unfold wBuffer at h
+  obtain ⟨l, hl, h2⟩ := bind_ok h
+  simp only [pure, Except.pure, Except.ok.injEq] at h2
+  subst h2
+  simp only [rBuffer, List.append_assoc, rdU32_wU32 hl, bind, Except.bind, rd_append]
+
+theorem rQBuffer_wQBuffer {d b : Bytes} (h : wQBuffer d = .ok b) (rest : Bytes) : rQBuffer (b ++ rest) = .ok (d, rest) := by
+  unfold wQBuffer at h
+  obtain ⟨l, hl, h2⟩ := bind_ok h
+  simp only [pure, Except.pure, Except.ok.injEq] at h2
+  subst h2
+  simp only [rQBuffer, List.append_assoc, rdU16_wU16 hl, bind, Except.bind, rd_append]
+
+theorem wBuffer_ok_iff (d : Bytes) : (∃ b, wBuffer d = .ok b) ↔ d.length < 4294967296 := by
+  unfold wBuffer
+  constructor
+  · rintro ⟨b, h⟩; obtain ⟨l, hl, _⟩ := bind_ok h; exact (wU32_ok_iff _).mp ⟨l, hl⟩
+  · intro h; obtain ⟨l, hl⟩ := (wU32_ok_iff _).mpr h
+    exact ⟨l ++ d, by simp [hl, bind, Except.bind, pure, Except.pure]⟩
+
+/-! ## lists -/
+
+theorem rRepeat_wRepeat {α : Type} (f : α → Except Err Bytes) (rdr : Bytes → Except Err (α × Bytes)) (l : List α)
+    (hrt : ∀ x ∈ l, ∀ b rest, f x = .ok b → rdr (b ++ rest) = .ok (x, rest)) :
+    ∀ b rest, wRepeat f l = .ok b → rRepeat rdr l.length (b ++ rest) = .ok (l, rest) := by
+  induction l with
+  | nil => intro b rest h; simp only [wRepeat, Except.ok.injEq] at h; subst h; rfl
+  | cons x xs ih =>
+    intro b rest h
+    simp only [wRepeat] at h
+    obtain ⟨a, ha, h⟩ := bind_ok h
+    obtain ⟨r, hr, h⟩ := bind_ok h
+    simp only [pure, Except.pure, Except.ok.injEq] at h
+    subst h
+    have h1 := hrt x (by simp) a (r ++ rest) ha
+    have h2 := ih (fun y hy => hrt y (by simp [hy])) r rest hr
+    simp only [List.length_cons, rRepeat, List.append_assoc, h1, bind, Except.bind, h2, pure, Except.pure]
+
+theorem rList_wList {α : Type} (f : α → Except Err Bytes) (rdr : Bytes → Except Err (α × Bytes)) (l : List α)
+    (hrt : ∀ x ∈ l, ∀ b rest, f x = .ok b → rdr (b ++ rest) = .ok (x, rest))
+    {b : Bytes} (h : wList f l = .ok b) (rest : Bytes) : rList rdr (b ++ rest) = .ok (l, rest) := by
+  unfold wList at h
+  obtain ⟨n, hn, h⟩ := bind_ok h
+  obtain ⟨r, hr, h⟩ := bind_ok h
+  simp only [pure, Except.pure, Except.ok.injEq] at h
+  subst h
+  simp only [rList, List.append_assoc, rdU32_wU32 hn, bind, Except.bind]
+  exact rRepeat_wRepeat f rdr l hrt r rest hr
+
+/-! ## maps -/
+
+theorem rMapItems_wMapItems {κ ν : Type} [BEq κ] [LawfulBEq κ]
+    (kf : κ → Except Err Bytes) (vf : ν → Except Err Bytes)
+    (rk : Bytes → Except Err (κ × Bytes)) (rv : Bytes → Except Err (ν × Bytes)) (m : List (κ × ν))
+    (hk : ∀ e ∈ m, ∀ b rest, kf e.1 = .ok b → rk (b ++ rest) = .ok (e.1, rest))
+    (hv : ∀ e ∈ m, ∀ b rest, vf e.2 = .ok b → rv (b ++ rest) = .ok (e.2, rest))
+    (hnd : (m.map (·.1)).Nodup) :
+    ∀ (acc : List (κ × ν)) b rest, (∀ e ∈ m, e.1 ∉ acc.map (·.1)) → wMapItems kf vf m = .ok b →
+      rMapItems rk rv m.length acc (b ++ rest) = .ok (acc ++ m, rest) := by
+  induction m with
+  | nil => intro acc b rest _ h; simp only [wMapItems, Except.ok.injEq] at h; subst h; simp [rMapItems]
+  | cons e r ih =>
+    intro acc b rest hdis h
+    obtain ⟨k, v⟩ := e
+    simp only [wMapItems] at h
+    obtain ⟨a, ha, h⟩ := bind_ok h
+    obtain ⟨c, hc, h⟩ := bind_ok h
+    obtain ⟨t, ht, h⟩ := bind_ok h
+    simp only [pure, Except.pure, Except.ok.injEq] at h
+    subst h
+    simp only [List.map_cons, List.nodup_cons] at hnd
+    have h1 := hk (k, v) (by simp) a (c ++ (t ++ rest)) ha
+    have h2 := hv (k, v) (by simp) c (t ++ rest) hc
+    have hins : dictInsert k v acc = acc ++ [(k, v)] := dictInsert_of_notMem k v acc (hdis (k, v) (by simp))
+    have h3 := ih (fun e he => hk e (by simp [he])) (fun e he => hv e (by simp [he])) hnd.2 (acc ++ [(k, v)]) t rest
+      (by
+        intro e he
+        simp only [List.map_append, List.map_cons, List.map_nil, List.mem_append, List.mem_singleton, not_or]
+        refine ⟨hdis e (by simp [he]), ?_⟩
+        intro heq
+        exact hnd.1 (heq ▸ List.mem_map_of_mem (f := (·.1)) he)) ht
+    simp only [List.length_cons, rMapItems, List.append_assoc, h1, bind, Except.bind, h2, hins, h3]
+    simp
+
+theorem rMap_wMap {κ ν : Type} [BEq κ] [LawfulBEq κ]
+    (kf : κ → Except Err Bytes) (vf : ν → Except Err Bytes)
+    (rk : Bytes → Except Err (κ × Bytes)) (rv : Bytes → Except Err (ν × Bytes)) (m : List (κ × ν))
+    (hk : ∀ e ∈ m, ∀ b rest, kf e.1 = .ok b → rk (b ++ rest) = .ok (e.1, rest))
+    (hv : ∀ e ∈ m, ∀ b rest, vf e.2 = .ok b → rv (b ++ rest) = .ok (e.2, rest))
+    (hnd : (m.map (·.1)).Nodup) {b : Bytes} (h : wMap kf vf m = .ok b) (rest : Bytes) :
+    rMap rk rv (b ++ rest) = .ok (m, rest) := by
+  unfold wMap at h
+  obtain ⟨n, hn, h⟩ := bind_ok h
+  obtain ⟨r, hr, h⟩ := bind_ok h
+  simp only [pure, Except.pure, Except.ok.injEq] at h
+  subst h
+  simp only [rMap, List.append_assoc, rdU32_wU32 hn, bind, Except.bind]
+  have := rMapItems_wMapItems kf vf rk rv m hk hv hnd [] r rest (by simp) hr
+  simpa using this
+
+/-! ## variant -/
+
+theorem rVariant_wVariant {v : Variant} {b : Bytes} (h : wVariant v = .ok b) (rest : Bytes) :
+    rVariant (b ++ rest) = .ok (v, rest) := by
+  cases v with
+  | none =>
+    simp only [wVariant, Except.ok.injEq] at h; subst h
+    simp [rVariant, rdU8, u8, b8, bind, Except.bind, pure, Except.pure]
+  | bool x =>
+    simp only [wVariant] at h
+    obtain ⟨r, hr, h⟩ := bind_ok h
+    simp only [pure, Except.pure, Except.ok.injEq] at h; subst h
+    have := rBool_wBool hr rest
+    simp [rVariant, rdU8, u8, b8, bind, Except.bind, pure, Except.pure, this]
+  | int x =>
+    simp only [wVariant] at h
+    split at h
+    · obtain ⟨r, hr, h⟩ := bind_ok h
+      simp only [pure, Except.pure, Except.ok.injEq] at h; subst h
+      have := rS64_wS64 hr rest
+      simp [rVariant, rdU8, u8, b8, bind, Except.bind, pure, Except.pure, this]
+    · rename_i hneg
+      obtain ⟨r, hr, h⟩ := bind_ok h
+      simp only [pure, Except.pure, Except.ok.injEq] at h; subst h
+      have := rdU64_wU64 hr rest
+      have hx : ((x.toNat : Nat) : Int) = x := Int.toNat_of_nonneg (by omega)
+      simp [rVariant, rdU8, u8, b8, bind, Except.bind, pure, Except.pure, this, hx]
+  | double x =>
+    simp only [wVariant] at h
+    obtain ⟨r, hr, h⟩ := bind_ok h
+    simp only [pure, Except.pure, Except.ok.injEq] at h; subst h
+    have := rDouble_wDouble hr rest
+    simp [rVariant, rdU8, u8, b8, bind, Except.bind, pure, Except.pure, this]
+  | str x =>
+    simp only [wVariant] at h
+    obtain ⟨r, hr, h⟩ := bind_ok h
+    simp only [pure, Except.pure, Except.ok.injEq] at h; subst h
+    have := rString_wString hr rest
+    simp [rVariant, rdU8, u8, b8, bind, Except.bind, pure, Except.pure, this]
+  | datetime x =>
+    simp only [wVariant] at h
+    obtain ⟨r, hr, h⟩ := bind_ok h
+    simp only [pure, Except.pure, Except.ok.injEq] at h; subst h
+    have := rDateTime_wDateTime hr rest
+    simp [rVariant, rdU8, u8, b8, bind, Except.bind, pure, Except.pure, this]
+
+/-- the wire tag chosen for each kind of value -/
+theorem wVariant_tag {v : Variant} {b : Bytes} (h : wVariant v = .ok b) :
+    b.head? = some (match v with
+      | .none => 0 | .int x => if x < 0 then 1 else 6 | .double _ => 2 | .bool _ => 3 | .str _ => 4 | .datetime _ => 5) := by
+  cases v with
+  | none => simp only [wVariant, Except.ok.injEq] at h; subst h; rfl
+  | int x =>
+    simp only [wVariant] at h
+    split at h <;> (obtain ⟨r, hr, h⟩ := bind_ok h; simp only [pure, Except.pure, Except.ok.injEq] at h; subst h; simp [u8, b8, *])
+  | bool x => simp only [wVariant] at h; obtain ⟨r, hr, h⟩ := bind_ok h; simp only [pure, Except.pure, Except.ok.injEq] at h; subst h; simp [u8, b8]
+  | double x => simp only [wVariant] at h; obtain ⟨r, hr, h⟩ := bind_ok h; simp only [pure, Except.pure, Except.ok.injEq] at h; subst h; simp [u8, b8]
+  | str x => simp only [wVariant] at h; obtain ⟨r, hr, h⟩ := bind_ok h; simp only [pure, Except.pure, Except.ok.injEq] at h; subst h; simp [u8, b8]
+  | datetime x => simp only [wVariant] at h; obtain ⟨r, hr, h⟩ := bind_ok h; simp only [pure, Except.pure, Except.ok.injEq] at h; subst h; simp [u8, b8]
+
+/-! ## anydata, structure levels -/
+
+theorem rAnyData_wAnyData {name : Option String} {payload b : Bytes} (h : wAnyData name payload = .ok b) (rest : Bytes) :
+    rAnyData (b ++ rest) = .ok ((name, payload), rest) := by
+  unfold wAnyData at h
+  obtain ⟨n, hn, h⟩ := bind_ok h
+  obtain ⟨l, hl, h⟩ := bind_ok h
+  obtain ⟨p, hp, h⟩ := bind_ok h
+  simp only [pure, Except.pure, Except.ok.injEq] at h
+  subst h
+  have hp' := hp
+  unfold wBuffer at hp'
+  obtain ⟨l2, hl2, hp'⟩ := bind_ok hp'
+  simp only [pure, Except.pure, Except.ok.injEq] at hp'
+  have hplen : p.length = payload.length + 4 := by
+    subst hp'
+    unfold wU32 at hl2; split at hl2
+    · cases hl2; simp; omega
+    · cases hl2
+  have h1 := rString_wString hn (l ++ (p ++ rest))
+  -- outer buffer: u32 (len+4) followed by exactly the inner buffer `p`
+  have houter : rBuffer (l ++ (p ++ rest)) = .ok (p, rest) := by
+    have : wBuffer p = .ok (l ++ p) := by
+      unfold wBuffer; rw [hplen, hl]; rfl
+    have := rBuffer_wBuffer this rest
+    simpa using this
+  have hinner : rBuffer p = .ok (payload, []) := by
+    have := rBuffer_wBuffer hp []
+    simpa using this
+  simp only [rAnyData, List.append_assoc, h1, bind, Except.bind, houter, hinner, pure, Except.pure]
+
+theorem rStructLevel_wStructLevel {α : Type} (header : Bool) (version : Nat) (body : Bytes)
+    (load : Nat → Bytes → Except Err (α × Bytes)) (x : α)
+    (hload : ∀ rest, load (if header then version else 0) (body ++ rest) = .ok (x, rest))
+    {b : Bytes} (h : wStructLevel header version body = .ok b) (rest : Bytes) :
+    rStructLevel header load (b ++ rest) = .ok (x, rest) := by
+  unfold wStructLevel at h
+  cases header with
+  | false =>
+    simp only [Bool.false_eq_true, if_false, Except.ok.injEq] at h
+    subst h
+    simpa [rStructLevel] using hload rest
+  | true =>
+    simp only [if_true] at h
+    obtain ⟨v, hv, h⟩ := bind_ok h
+    obtain ⟨bb, hb, h⟩ := bind_ok h
+    simp only [pure, Except.pure, Except.ok.injEq] at h
+    subst h
+    have h1 := rdU8_wU8 hv (bb ++ rest)
+    have h2 := rBuffer_wBuffer hb rest
+    have h3 := hload []
+    simp only [if_true, List.append_nil] at h3
+    simp only [rStructLevel, if_true, List.append_assoc, h1, bind, Except.bind, h2, h3, pure, Except.pure]
 
 end Nx.Nex
